@@ -47,6 +47,11 @@ CLAIMED["C16"] = ("E-fraction", "fraction + - * /, unary, six comparisons, reduc
 CLAIMED["C17"] = ("E-fraction", "fraction<T>(x) / make_fraction<T>(x) for int16/32/64 x float/double/long double over an exponent x mantissa lattice, small ratios, decimal fractions, near-limit and tiny values and seeded random inputs, each construction logged with its mediant-iteration count (hook H3) "
                   "and judged offline against the full statement; inputs are split by a predicate on x into an easy class (judged strictly) and a hard class whose deviations are the recorded finding KF-C17-01.", "DESIGN.md §4 C17",
                   "logical step counter (tick hook) + sanitizer traps + offline exact-rational checker over the recorded event log")
+CLAIMED["C19"] = ("E-math", "cnl::sqrt on built-in integers (8/16-bit exhaustively, 32-bit exhaustively in thorough, 64/128-bit at the top of the range, at perfect squares and their neighbours), elastic_integer<D> for D in 1..63 (result within (D+1)/2 digits) and "
+                  "scaled_integer over 8..64-bit reps and even exponents in [-60,60] (result exponent E/2): r*r <= x < (r+1)^2 checked on 256-bit integers; CPU watchdog for termination.", "DESIGN.md §4 C19", None)
+CLAIMED["C20"] = ("E-math", "cnl::exp2 over every scaled_integer format with an 8..32-bit rep and at least one integer bit: 8/16-bit reps exhaustively, 32-bit on a seeded stride, dense windows and random inputs; results logged and compared offline with floor(2^x/2^E) from a 256-bit fixed-point "
+                  "evaluation (integer square roots), exactness for integral x; all <numbers> constants for every (Rep 8..64 bit, exponent with room) compared with 80-digit values.", "DESIGN.md §4 C20",
+                  "sanitizer-instrumented execution with an offline exact (256-bit fixed-point / 80-digit) checker over the recorded event log")
 PLANNED = {}
 
 
